@@ -418,6 +418,44 @@ Example C12_reduction_witness :
             objs c 0 = 13%N /\ thrs c = [([], 1%N, []); ([], 6%N, [])].
 Proof. exact reduction_witness. Qed.
 
+(* ------------------------------------------------------------------ part 6: movers, for pools with NESTED sections *)
+(* FULL STATEMENT aimed at (NOT proved): the reduction of part 5 for ANY well-locked pool, nested sections included
+   (Frames.mu inside Hub.mu: Hub.GetStats, the status handler, statsReporter). Note that such an outer section is
+   NOT one atomic operation in any case: between two inner sections another thread may update the statistics of a
+   client not yet read, so a status report is a sequence of atomic per-client reads under a frozen membership, not a
+   snapshot; the right target is "every maximal run of a thread's steps between two of its lock operations is
+   atomic", by Lipton's argument: accesses and control steps are both-movers, Acq a right-mover, Rel a left-mover.
+   PROVED (this theorem): the both-mover half, for every configuration reachable from well-locked code whatever the
+   nesting - a step that is neither Acq nor Rel commutes with the following step of any other thread, same final
+   configuration. MISSING: "Acq moves right", "Rel moves left", and the assembly of the permutation. *)
+Section MoversGeneric.
+  Context {L F Ob Lo : Type}.
+  Variable leqb : L -> L -> bool.
+  Hypothesis leqb_spec : forall a b, leqb a b = true <-> a = b.
+  Variable guard : F -> L.
+  Variable rd : F -> Lo -> Ob -> Lo.
+  Variable wr : F -> Lo -> Ob -> Lo * Ob.
+
+  Theorem C12_nested_reduction_movers_partial :
+    forall c i c1 j c2, wl leqb guard c -> i <> j -> quiet c i ->
+    vstep leqb guard rd wr c i c1 -> vstep leqb guard rd wr c1 j c2 ->
+    exists c1' c2', vstep leqb guard rd wr c j c1' /\ vstep leqb guard rd wr c1' i c2' /\ same c2' c2.
+  Proof. exact (quiet_step_commutes leqb leqb_spec guard rd wr). Qed.
+
+  (* its hypothesis [wl] holds in every configuration reachable from well-locked code (checker of part 1) *)
+  Theorem C12_discipline_reachable :
+    forall rank nb ord c0 c,
+    initial leqb guard rank nb ord (erase (thrs c0)) -> vsteps leqb guard rd wr c0 c -> wl leqb guard c.
+  Proof. exact (wl_reachable leqb leqb_spec guard rd wr). Qed.
+End MoversGeneric.
+Print Assumptions C12_nested_reduction_movers_partial.
+Print Assumptions C12_discipline_reachable.
+
+Example C12_movers_witness :
+  wl Nat.eqb (fun f => f) mv_c /\ quiet mv_c 0 /\
+  exists c1 c2, vstep Nat.eqb (fun f => f) w_rd w_wr mv_c 0 c1 /\ vstep Nat.eqb (fun f => f) w_rd w_wr c1 1 c2.
+Proof. exact movers_witness. Qed.
+
 (* ------------------------------------------------------------------ non-vacuity *)
 (* an injective instantiation exists; a well-locked two-function program has a concrete execution reaching a pool
    where thread 0 is inside its exclusive section at a write and thread 1 waits for that lock *)
